@@ -12,12 +12,12 @@ EXTENDS Integers, Sequences, FiniteSets, TLC, Json
 Trace == ndJsonDeserialize("trace.ndjson")
 VARIABLES l, viol, stat
 tvars == <<l, viol, stat>>
-Stat0 == [events |-> 0, killed |-> 0, ioerr |-> 0, completed |-> 0, broken |-> 0, cutmid |-> 0, leftovers |-> 0, offsets |-> 0]
+Stat0 == [trees |-> 0, treekilled |-> 0, treeerr |-> 0, treeretried |-> 0, events |-> 0, killed |-> 0, ioerr |-> 0, completed |-> 0, broken |-> 0, cutmid |-> 0, leftovers |-> 0, offsets |-> 0]
 TInit == l = 1 /\ viol = {} /\ stat = Stat0
 Ev == Trace[l]
 V(why) == [p |-> "C17", l |-> l, tr |-> Ev.id, why |-> why, h |-> 0]
 BumpIf(s, c, f) == IF c THEN [s EXCEPT ![f] = @ + 1] ELSE s
-TCrash == /\ l <= Len(Trace)
+TCrash == /\ l <= Len(Trace) /\ Ev.op = "fcrash"
           /\ LET e == Ev
                  complete1 == e.load1 = e.len /\ e.same1
                  v == IF e.child = "broken" THEN {} ELSE
@@ -32,6 +32,22 @@ TCrash == /\ l <= Len(Trace)
                         e.child = "ok", "completed"), e.child = "broken", "broken"), e.limit > 0 /\ e.limit < e.len, "cutmid"), e.extra > 0, "leftovers")
              IN viol' = viol \cup v /\ stat' = s
           /\ l' = l + 1
-TSpec == TInit /\ [][TCrash]_tvars
+(* The same at the level of a tree: MakeRoot over the file store is cut short at byte `limit` of a node file; in the I/O-error modes
+   the same tree object (with or without a node cache) persists again once the condition is gone, in the crash modes the process
+   dies; then, after "restart", a new process persists the same tree into the same directory.                             *)
+TTree == /\ l <= Len(Trace) /\ Ev.op = "ftree"
+         /\ LET e == Ev
+                v == IF e.child = "broken" THEN {} ELSE
+                     (IF e.partial > 0 THEN {V("after a cut-short MakeRoot a node name loads to contents that are not the node")} ELSE {})
+                     \cup (IF e.child = "ok" /\ (e.res1 = "ok" \/ e.res2 = "ok") /\ e.missing + e.corrupt > 0
+                           THEN {V("a MakeRoot that reported success (possibly on a second attempt) left a node of the root missing or incomplete in the file store")} ELSE {})
+                     \cup (IF e.child = "ok" /\ e.res2 # "ok" THEN {V("persisting again once the I/O error is gone does not succeed")} ELSE {})
+                     \cup (IF e.restore # "ok" THEN {V("persisting the tree again after restart does not succeed")}
+                           ELSE IF ~e.sameroot \/ e.missing2 + e.corrupt2 > 0 THEN {V("persisting the tree again after restart does not repair it (a node is skipped because something exists)")} ELSE {})
+                s == BumpIf(BumpIf(BumpIf([stat EXCEPT !.trees = @ + 1], e.child = "killed", "treekilled"), e.child = "ok" /\ e.res1 = "err", "treeerr"),
+                            e.child = "ok" /\ e.res1 = "err" /\ e.res2 = "ok", "treeretried")
+            IN viol' = viol \cup v /\ stat' = s
+         /\ l' = l + 1
+TSpec == TInit /\ [][TCrash \/ TTree]_tvars
 Report == (l = Len(Trace) + 1) => PrintT(<<"REPORT", ToJson([viol |-> viol, stat |-> stat, consumed |-> l - 1])>>)
 =============================================================================
